@@ -16,12 +16,17 @@ soundness theorem instead names an explicit pair of byte strings COMPUTED from
 the proof at hand (`collisionOf …`, `collisionOf2 …`, or the two values) and
 says: the conclusion holds, or that very pair is a collision of `H`.
 
-Findings on the unchanged tree (kept visible: `soundness_statement` is the full
-statement, it is refuted by two counterexample theorems, and
-`soundness_partial` is proved under the exact guards):
-  * nil-root: against the root of the EMPTY list (nil) every leaf verifies;
-  * total-malleable: `Total` (and `Index` jointly with it) is not bound by
-    `Verify` — only the turn sequence of `(Index, Total)` is.
+Findings (kept visible: `soundness_statement` is the full statement, it is
+refuted by `soundness_counterexample`, and `soundness_partial` is proved under the
+exact guard):
+  * total-malleable (open): `Total` (and `Index` jointly with it) is not bound by
+    `Verify` — only the turn sequence of `(Index, Total)` is;
+  * nil-root (FIXED in /repo 96b4d2262f): against the root of the EMPTY list (nil)
+    every leaf verified.  `Verify` now rejects a nil computed hash; the theorems
+    below hold for EVERY list including the empty one (`empty_root_rejects`), and
+    the old behaviour is recorded about `verifyOld` (`verifyOld_nil_root_accepts_anything`).
+    The same weakness is still present on the `SimpleValueOp` + `ProofOperators.Verify`
+    path (`valueOp_nil_root_accepts_anything`; oracle class nil-root-valueop).
 -/
 namespace GnoVerif.C25
 
@@ -103,16 +108,16 @@ def soundness_statement : Prop :=
     (p.total = items.length ∧ ∃ i : Nat, p.index = i ∧ items[i]? = some leaf) ∨
       IsCollision H (collisionOf H items p leaf)
 
-/-- Soundness under the exact guards (non-empty list; the verifier compares
-`Total` with the known size, as `PartSet.AddPart` does): a proof that verifies
-against the root of `items` proves `leaf = items[Index]` — or `collisionOf`
+/-- Soundness under the exact guard (the verifier compares `Total` with the known
+size, as `PartSet.AddPart` does), for EVERY list, the empty one included: a proof that
+verifies against the root of `items` proves `leaf = items[Index]` — or `collisionOf`
 computes a collision of `H` from the proof. -/
 theorem soundness_partial {H : Bytes → Bytes} {sz : Nat} (hsz : ∀ x, (H x).length = sz) (hpos : 0 < sz)
-    (items : List Bytes) (p : SimpleProof) (leaf : Bytes) (hne : items ≠ [])
+    (items : List Bytes) (p : SimpleProof) (leaf : Bytes)
     (hv : p.verify H (simpleHashFromByteSlices H items) leaf = .ok ())
     (ht : p.total = items.length) :
     (∃ i : Nat, p.index = i ∧ items[i]? = some leaf) ∨ IsCollision H (collisionOf H items p leaf) := by
-  obtain ⟨h1, h2, h | h⟩ := sound_model hsz hpos hne hv
+  obtain ⟨_, h1, h2, h | h⟩ := sound_model hsz hpos hv
   · left
     refine ⟨p.index.toNat, (Int.toNat_of_nonneg h1).symm, ?_⟩
     have hi : p.index.toNat < items.length := by omega
@@ -122,21 +127,21 @@ theorem soundness_partial {H : Bytes → Bytes} {sz : Nat} (hsz : ∀ x, (H x).l
   · right; exact h
 
 example : ∃ (H : Bytes → Bytes) (sz : Nat) (_ : ∀ x, (H x).length = sz) (_ : 0 < sz)
-    (items : List Bytes) (p : SimpleProof) (leaf : Bytes), items ≠ [] ∧
+    (items : List Bytes) (p : SimpleProof) (leaf : Bytes),
     p.verify H (simpleHashFromByteSlices H items) leaf = .ok () ∧ p.total = items.length :=
-  ⟨toyH, 1, toyH_len, by decide, [[1], [2], [3]], proofFor toyH [[1], [2], [3]] 1, [2], by simp,
+  ⟨toyH, 1, toyH_len, by decide, [[1], [2], [3]], proofFor toyH [[1], [2], [3]] 1, [2],
     completeness toyH [[1], [2], [3]] 1 (by decide), rfl⟩
 
-/-- Soundness WITHOUT trusting `Total`: whatever verifies against the root of a
-non-empty list is an item of the list, namely the one at the position `j` whose
+/-- Soundness WITHOUT trusting `Total`, for every list: whatever verifies against the
+root of `items` is an item of the list, namely the one at the position `j` whose
 turn sequence equals that of the claimed `(Index, Total)` — or an explicit collision.
 (So the leaf is always authenticated; only `(Index, Total)` can be restated.) -/
 theorem soundness_membership_partial {H : Bytes → Bytes} {sz : Nat} (hsz : ∀ x, (H x).length = sz) (hpos : 0 < sz)
-    (items : List Bytes) (p : SimpleProof) (leaf : Bytes) (hne : items ≠ [])
+    (items : List Bytes) (p : SimpleProof) (leaf : Bytes)
     (hv : p.verify H (simpleHashFromByteSlices H items) leaf = .ok ()) :
     (∃ j, items[j]? = some leaf ∧ turns j items.length = turns p.index.toNat p.total.toNat) ∨
       IsCollision H (collisionOf H items p leaf) := by
-  obtain ⟨_, _, h | h⟩ := sound_model hsz hpos hne hv
+  obtain ⟨hne, _, _, h | h⟩ := sound_model hsz hpos hv
   · left
     obtain ⟨j, _, ht, hx⟩ := leafAt_build_inv _ items _ _ rfl hne h
     exact ⟨j, hx, ht⟩
@@ -147,36 +152,62 @@ index cannot be restated. -/
 theorem turns_injective (n i j : Nat) (hi : i < n) (hj : j < n) (h : turns i n = turns j n) : i = j :=
   turns_inj n i j hi hj h
 
-/-- FINDING nil-root — the full statement is false: against the root of the empty
-list (nil) the proof `{Total 0, Index 0, LeafHash = leafHash leaf, no aunts}` verifies
-for ANY leaf (here with the toy hash and the empty leaf; `collisionOf` yields the
-pair `([0],[0])`, not a collision). -/
-theorem soundness_counterexample : ¬ soundness_statement := by
-  intro h
-  have hv : (⟨0, 0, some (leafHash toyH []), []⟩ : SimpleProof).verify toyH (simpleHashFromByteSlices toyH []) [] = .ok () := by
-    simp [SimpleProof.verify, SimpleProof.computeRootHash, computeHashFromAunts, simpleHashFromByteSlices, bytesEqual]
-  rcases h toyH 1 toyH_len (by decide) [] _ [] hv with ⟨_, i, _, hi⟩ | hc
-  · simp at hi
-  · have : collisionOf toyH [] ⟨0, 0, some (leafHash toyH []), []⟩ [] = ([0], [0]) := by
-      simp [collisionOf, build, turns, collide, Tree.preimage]
-    rw [this] at hc
-    exact hc.1 rfl
+/-- Soundness for the EMPTY list, explicitly (what /repo 96b4d2262f established):
+nothing verifies against a nil or empty root — no proof, no leaf, no `(Index, Total)`.
+In particular nothing verifies against `SimpleHashFromByteSlices(nil)`, the DataHash
+of an empty block. -/
+theorem empty_root_rejects {H : Bytes → Bytes} {sz : Nat} (hsz : ∀ x, (H x).length = sz) (hpos : 0 < sz)
+    (p : SimpleProof) (root : Option Bytes) (leaf : Bytes) (hroot : root.getD [] = []) :
+    p.verify H root leaf ≠ .ok () := by
+  intro hv
+  obtain ⟨r, hr, hne, _⟩ := verify_ok_path hsz hpos hv
+  rw [hr] at hroot
+  exact hne (by simpa using hroot)
 
-/-- the same acceptance for every hash and every leaf: nothing about the leaf is
-checked against an empty root (`Total = 1, Index = 1` passes `TxProof.Validate`'s own
-guards too) -/
-theorem nil_root_accepts_anything (H : Bytes → Bytes) (leaf : Bytes) (aunts : List Bytes) (total index : Nat)
+theorem empty_list_rejects {H : Bytes → Bytes} {sz : Nat} (hsz : ∀ x, (H x).length = sz) (hpos : 0 < sz)
+    (p : SimpleProof) (leaf : Bytes) :
+    p.verify H (simpleHashFromByteSlices H []) leaf ≠ .ok () :=
+  empty_root_rejects hsz hpos p _ leaf (by simp [simpleHashFromByteSlices])
+
+/-- REGRESSION RECORD (nil-root, fixed by 96b4d2262f): the OLD `Verify` (`verifyOld`, without
+the `computedHash == nil` test) accepted every leaf against the root of the empty list,
+for every hash, with any `(Index, Total)` that is not a position (`Total = 1, Index = 1`
+passed `TxProof.Validate`'s own guards too). -/
+theorem verifyOld_nil_root_accepts_anything (H : Bytes → Bytes) (leaf : Bytes) (aunts : List Bytes) (total index : Nat)
     (h : total ≤ index) :
-    (⟨total, index, some (leafHash H leaf), aunts⟩ : SimpleProof).verify H (simpleHashFromByteSlices H []) leaf = .ok () := by
+    (⟨total, index, some (leafHash H leaf), aunts⟩ : SimpleProof).verifyOld H (simpleHashFromByteSlices H []) leaf = .ok () := by
   have a1 : ¬ ((total : Int) < 0) := by omega
   have a2 : ¬ ((index : Int) < 0) := by omega
-  simp [SimpleProof.verify, SimpleProof.computeRootHash, computeHashFromAunts, simpleHashFromByteSlices, bytesEqual,
+  simp [SimpleProof.verifyOld, SimpleProof.computeRootHash, computeHashFromAunts, simpleHashFromByteSlices, bytesEqual,
     h, a1, a2]
+
+/-- …and the current `Verify` rejects exactly those inputs (for every hash, no size assumption). -/
+theorem verify_rejects_non_positions (H : Bytes → Bytes) (leaf : Bytes) (aunts : List Bytes) (total index : Nat)
+    (root : Option Bytes) (h : total ≤ index) :
+    (⟨total, index, some (leafHash H leaf), aunts⟩ : SimpleProof).verify H root leaf = .error .root := by
+  have a1 : ¬ ((total : Int) < 0) := by omega
+  have a2 : ¬ ((index : Int) < 0) := by omega
+  simp [SimpleProof.verify, SimpleProof.computeRootHash, computeHashFromAunts, bytesEqual, h, a1, a2]
+
+/-- Wherever the new `Verify` accepts, the old one did too (the fix only removes acceptances). -/
+theorem verify_ok_imp_verifyOld_ok (H : Bytes → Bytes) (p : SimpleProof) (root : Option Bytes) (leaf : Bytes)
+    (h : p.verify H root leaf = .ok ()) : p.verifyOld H root leaf = .ok () := by
+  obtain ⟨a, b, c, _, e⟩ := (verify_ok_iff H p root leaf).1 h
+  have a1 : ¬ p.total < 0 := by omega
+  have a2 : ¬ p.index < 0 := by omega
+  simp [SimpleProof.verifyOld, a1, a2, c, e]
+
+/-- OPEN (oracle class nil-root-valueop): the `SimpleValueOp.Run` + `ProofOperators.Verify`
+path still compares a possibly-nil computed root with `bytes.Equal`, so against an empty
+root it accepts every `(key, value)` once `(Index, Total)` is not a position. -/
+theorem valueOp_nil_root_accepts_anything (H : Bytes → Bytes) (key value : Bytes) (aunts : List Bytes) (total index : Nat)
+    (h : total ≤ index) :
+    valueOpVerify H key value none ⟨total, index, some (leafHash H (mapLeaf H key value)), aunts⟩ = .ok () := by
+  simp [valueOpVerify, SimpleProof.computeRootHash, computeHashFromAunts, bytesEqual, h]
 
 /-- FINDING total-malleable — for EVERY hash: the genuine proof of item 0 of a
 5-item list still verifies after `Total` is altered from 5 to 7 (one bit), and the
-extractor finds no collision (it returns `(0‖leaf, 0‖leaf)`).  So the full
-statement fails on non-empty lists too: `Total` is not authenticated. -/
+extractor finds no collision (it returns `(0‖leaf, 0‖leaf)`): `Total` is not authenticated. -/
 theorem soundness_total_counterexample (H : Bytes → Bytes) :
     let items : List Bytes := [[1], [2], [3], [4], [5]]
     let p : SimpleProof := { proofFor H items 0 with total := 7 }
@@ -205,12 +236,21 @@ theorem soundness_total_counterexample (H : Bytes → Bytes) :
   rw [hco]
   exact fun h => h.1 rfl
 
+/-- The full statement is false (total-malleable): with the toy hash, the proof of item 0 of
+5 restated with `Total = 7` verifies, `Total ≠ 5`, and `collisionOf` finds no collision. -/
+theorem soundness_counterexample : ¬ soundness_statement := by
+  intro h
+  obtain ⟨hv, hne, hnc⟩ := soundness_total_counterexample toyH
+  rcases h toyH 1 toyH_len (by decide) _ _ _ hv with ⟨ht, _⟩ | hc
+  · exact hne ht
+  · exact hnc hc
+
 /-- the hypotheses of `soundness_membership_partial` with a restated `Total` are satisfiable -/
 example : ∃ (H : Bytes → Bytes) (sz : Nat) (_ : ∀ x, (H x).length = sz) (_ : 0 < sz)
-    (items : List Bytes) (p : SimpleProof) (leaf : Bytes), items ≠ [] ∧ p.total ≠ items.length ∧
+    (items : List Bytes) (p : SimpleProof) (leaf : Bytes), p.total ≠ items.length ∧
     p.verify H (simpleHashFromByteSlices H items) leaf = .ok () :=
   ⟨toyH, 1, toyH_len, by decide, [[1], [2], [3], [4], [5]], { proofFor toyH [[1], [2], [3], [4], [5]] 0 with total := 7 }, [1],
-    by simp, by simp, (soundness_total_counterexample toyH).1⟩
+    by simp, (soundness_total_counterexample toyH).1⟩
 
 /-- The exact extent of the malleability: `(Index, Total)` influence `Verify` only
 through their turn sequence. -/
@@ -230,17 +270,19 @@ example : ∃ (p q : SimpleProof), p.total ≠ q.total ∧ 0 ≤ p.index ∧ p.i
 /-! ## mutations: leaf, proof, root -/
 
 /-- Altering the leaf, the leaf hash or any aunt: two proofs for the same
-`(Index, Total)` that both verify against the same non-empty root have the same
-leaf, the same leaf hash and the same aunts — or `collisionOf2` computes a collision. -/
+`(Index, Total)` that both verify against the same root (ANY root — nil/empty roots
+verify nothing since 96b4d2262f) have the same leaf, the same leaf hash and the same
+aunts — or `collisionOf2` computes a collision. -/
 theorem proof_binding {H : Bytes → Bytes} {sz : Nat} (hsz : ∀ x, (H x).length = sz) (hpos : 0 < sz)
-    (p₁ p₂ : SimpleProof) (r leaf₁ leaf₂ : Bytes) (hr : r ≠ [])
+    (p₁ p₂ : SimpleProof) (root : Option Bytes) (leaf₁ leaf₂ : Bytes)
     (hi : p₁.index = p₂.index) (ht : p₁.total = p₂.total)
-    (h₁ : p₁.verify H (some r) leaf₁ = .ok ()) (h₂ : p₂.verify H (some r) leaf₂ = .ok ()) :
+    (h₁ : p₁.verify H root leaf₁ = .ok ()) (h₂ : p₂.verify H root leaf₂ = .ok ()) :
     (leaf₁ = leaf₂ ∧ p₁.leafHash = p₂.leafHash ∧ p₁.aunts = p₂.aunts) ∨
       IsCollision H (collisionOf2 H p₁ p₂ leaf₁ leaf₂) := by
-  obtain ⟨_, _, l1, c1⟩ := verify_ok_path hsz hpos hr h₁
-  obtain ⟨_, _, l2, c2⟩ := verify_ok_path hsz hpos hr h₂
-  rw [← hi, ← ht] at c2
+  obtain ⟨r1, hr1, _, _, _, l1, c1⟩ := verify_ok_path hsz hpos h₁
+  obtain ⟨r2, hr2, _, _, _, l2, c2⟩ := verify_ok_path hsz hpos h₂
+  have hrr : r2 = r1 := by rw [hr1] at hr2; simpa using hr2.symm
+  rw [← hi, ← ht, hrr] at c2
   rcases binding_path hsz _ _ _ _ _ _ c1 c2 with ⟨e1, e2⟩ | h
   · left
     refine ⟨e1, by rw [l1, l2, e1], ?_⟩
@@ -249,20 +291,19 @@ theorem proof_binding {H : Bytes → Bytes} {sz : Nat} (hsz : ∀ x, (H x).lengt
   · right; exact h
 
 example : ∃ (H : Bytes → Bytes) (sz : Nat) (_ : ∀ x, (H x).length = sz) (_ : 0 < sz)
-    (p₁ p₂ : SimpleProof) (r l₁ l₂ : Bytes), r ≠ [] ∧ p₁.index = p₂.index ∧ p₁.total = p₂.total ∧
-    p₁.verify H (some r) l₁ = .ok () ∧ p₂.verify H (some r) l₂ = .ok () :=
+    (p₁ p₂ : SimpleProof) (root : Option Bytes) (l₁ l₂ : Bytes), p₁.index = p₂.index ∧ p₁.total = p₂.total ∧
+    p₁.verify H root l₁ = .ok () ∧ p₂.verify H root l₂ = .ok () :=
   ⟨toyH, 1, toyH_len, by decide, proofFor toyH [[1], [2]] 0, proofFor toyH [[1], [2]] 0,
-    (build [[1], [2]]).hash toyH, [1], [1], ne_nil_of_len (by decide) (tree_hash_len toyH_len _), rfl, rfl,
-    by rw [← hashFrom_of_ne_nil (by simp)]; exact completeness toyH [[1], [2]] 0 (by decide),
-    by rw [← hashFrom_of_ne_nil (by simp)]; exact completeness toyH [[1], [2]] 0 (by decide)⟩
+    simpleHashFromByteSlices toyH [[1], [2]], [1], [1], rfl, rfl,
+    completeness toyH [[1], [2]] 0 (by decide), completeness toyH [[1], [2]] 0 (by decide)⟩
 
 /-- Altering the root: one proof and leaf verify against at most one root
 (as byte strings; Go's `bytes.Equal` identifies nil and empty). -/
 theorem root_binding (H : Bytes → Bytes) (p : SimpleProof) (r₁ r₂ : Option Bytes) (leaf : Bytes)
     (h₁ : p.verify H r₁ leaf = .ok ()) (h₂ : p.verify H r₂ leaf = .ok ()) :
     r₁.getD [] = r₂.getD [] := by
-  obtain ⟨_, _, _, c1⟩ := (verify_ok_iff H p r₁ leaf).1 h₁
-  obtain ⟨_, _, _, c2⟩ := (verify_ok_iff H p r₂ leaf).1 h₂
+  obtain ⟨_, _, _, _, c1⟩ := (verify_ok_iff H p r₁ leaf).1 h₁
+  obtain ⟨_, _, _, _, c2⟩ := (verify_ok_iff H p r₂ leaf).1 h₂
   unfold bytesEqual at c1 c2
   rw [← eq_of_beq c1, ← eq_of_beq c2]
 
@@ -321,7 +362,7 @@ theorem map_completeness (H : Bytes → Bytes) (entries : List (Bytes × Bytes))
     simp only [show (smSort (smFromEntries H entries)).map KV.bytes = items from rfl, hp]
   · simp [hj, hjeq]
   · rw [hitem] at hv
-    obtain ⟨_, _, hl, hc⟩ := (verify_ok_iff H p _ _).1 hv
+    obtain ⟨_, _, hl, _, hc⟩ := (verify_ok_iff H p _ _).1 hv
     unfold valueOpVerify
     have hroot : simpleHashFromMap H entries = simpleHashFromByteSlices H items := rfl
     rw [hroot]
@@ -354,7 +395,7 @@ theorem map_soundness_partial {H : Bytes → Bytes} {sz : Nat} (hsz : ∀ x, (H 
   rw [hroot] at hv
   have hv' := valueOp_ok_verify hr hv
   rw [← hashFrom_of_ne_nil hine] at hv'
-  rcases soundness_membership_partial hsz hpos items p _ hine hv' with ⟨j, hj, _⟩ | h
+  rcases soundness_membership_partial hsz hpos items p _ hv' with ⟨j, hj, _⟩ | h
   · left
     have hmem : mapLeaf H key value ∈ items := List.mem_of_getElem? hj
     obtain ⟨kv, hkv, hb⟩ := List.mem_map.mp hmem
@@ -377,11 +418,11 @@ example : ∃ (entries : List (Bytes × Bytes)) (key value : Bytes) (p : SimpleP
 
 /-! ## instantiation with the real hash (uses only `sha256_length`) -/
 
-theorem soundness_partial_sha256 (items : List Bytes) (p : SimpleProof) (leaf : Bytes) (hne : items ≠ [])
+theorem soundness_partial_sha256 (items : List Bytes) (p : SimpleProof) (leaf : Bytes)
     (hv : p.verify Sha256.sha256 (simpleHashFromByteSlices Sha256.sha256 items) leaf = .ok ())
     (ht : p.total = items.length) :
     (∃ i : Nat, p.index = i ∧ items[i]? = some leaf) ∨
       IsCollision Sha256.sha256 (collisionOf Sha256.sha256 items p leaf) :=
-  soundness_partial Sha256.sha256_length (by decide) items p leaf hne hv ht
+  soundness_partial Sha256.sha256_length (by decide) items p leaf hv ht
 
 end GnoVerif.C25
